@@ -84,16 +84,21 @@ pub fn probe_r10() -> SimCampaign {
     c
 }
 
-/// Known finding R14: one share name used with two different filters shares one group (one
-/// cursor and turn for two different logs)
+/// R14 (repaired in /repo): one share name used with two different filters shared one group
+/// (one cursor and turn for two different logs). Kept as a focused campaign: every second
+/// subscription of share name g1 uses the other group's filter.
 pub fn probe_r14() -> SimCampaign {
     let mut c = main_campaign();
     c.name = "probe_r14_share_name_two_filters";
-    c.quick = 400;
-    c.thorough = 4000;
+    // no plain subscriptions here: the second filter of g1 is c/#, which they would overlap
+    c.gen.w_subscribe = 0;
+    c.gen.filters = vec!["zz".to_string()];
+    c.quick = 4000;
+    c.thorough = 80000;
     c.probes = vec!["shared:undelivered_at_idle", "shared:delivered_twice", "shared:member_order", "delivery:matches_no_subscription", "delivery:outside_subscription_lifetime"];
     c.shape = Some(|mut h: Hist| {
-        // every second shared subscription of group g1 uses the other group's path
+        // every second shared subscription of share name g1 is on c/# instead of a/# (a filter
+        // no other group reads, so that a forward still names its group without ambiguity)
         let mut k = 0;
         for op in h.ops.iter_mut() {
             if let Op::Subscribe { filters, .. } = op {
@@ -101,7 +106,7 @@ pub fn probe_r14() -> SimCampaign {
                     if f.starts_with("$share/g1/") {
                         k += 1;
                         if k % 2 == 0 {
-                            *f = "$share/g1/b/#".to_string();
+                            *f = "$share/g1/c/#".to_string();
                         }
                     }
                 }
